@@ -1,7 +1,7 @@
 (* C16 - standard-library 64-bit arithmetic is exact.
    Only statements, [exact], and Print Assumptions. *)
 From Coq Require Import ZArith List Bool Arith Lia String.
-From MV Require Import Base.Field Core.Op Core.Rpo Vm.Pure Vm.PureProps Gen.StdGen Asm.Instr Asm.SpecDefs Asm.U64Instr Asm.U64More.
+From MV Require Import Base.Field Core.Op Core.Rpo Vm.Pure Vm.PureProps Gen.StdGen Asm.Instr Asm.SpecDefs Asm.U64Instr Asm.U64More Asm.U64ShiftBase Asm.U64Shl Asm.U64Rotl Asm.HintDefs Asm.U64Div.
 Import ListNotations.
 Open Scope Z_scope.
 Open Scope string_scope.
@@ -100,3 +100,39 @@ Theorem c16_xor_value : forall ah al bh bl,
   Z.lxor (ah * TWO32 + al) (bh * TWO32 + bl) = Z.lxor ah bh * TWO32 + Z.lxor al bl.
 Proof. exact lxor64_limbs. Qed.
 Print Assumptions c16_xor_value.
+
+(* shifts and rotations: operands [n; a_hi; a_lo] with the amount on top, 0 <= n < 64 *)
+Theorem c16_shl : instr_spec_g (std_ops_of "u64::shl") 3 gshift no_pre
+  (fun xs => limbs64 ((AS xs * 2 ^ (nz xs 0)) mod TWO64)).
+Proof. exact u64_shl. Qed.
+Print Assumptions c16_shl.
+Theorem c16_rotl : instr_spec_g (std_ops_of "u64::rotl") 3 gshift no_pre
+  (fun xs => limbs64 ((AS xs * 2 ^ (nz xs 0)) mod TWO64 + (AS xs * 2 ^ (nz xs 0)) / TWO64)).
+Proof. exact u64_rotl. Qed.
+Print Assumptions c16_rotl.
+
+(* division: the quotient and remainder limbs come from the advice stack; for EVERY four canonical
+   field elements a host may supply, a completed run leaves exactly a / b (a mod b, both), and with a
+   zero divisor no hints let the run complete *)
+Theorem c16_div : hint_sound (std_ops_of "u64::div") 4 g4 (fun xs => limbs64 (A64 xs / B64 xs)).
+Proof. exact u64_div_hint_sound. Qed.
+Print Assumptions c16_div.
+Theorem c16_mod : hint_sound (std_ops_of "u64::mod") 4 g4 (fun xs => limbs64 (A64 xs mod B64 xs)).
+Proof. exact u64_mod_hint_sound. Qed.
+Print Assumptions c16_mod.
+Theorem c16_divmod : hint_sound (std_ops_of "u64::divmod") 4 g4
+  (fun xs => (limbs64 (A64 xs mod B64 xs) ++ limbs64 (A64 xs / B64 xs))%list).
+Proof. exact u64_divmod_hint_sound. Qed.
+Print Assumptions c16_divmod.
+Theorem c16_div_zero : forall h1 h2 h3 h4, canon h1 -> canon h2 -> canon h3 -> canon h4 ->
+  view_rejects (hinted (std_ops_of "u64::div") [h1; h2; h3; h4]) 4 g4 (fun xs => B64 xs = 0).
+Proof. exact u64_div_zero. Qed.
+Print Assumptions c16_div_zero.
+Theorem c16_mod_zero : forall h1 h2 h3 h4, canon h1 -> canon h2 -> canon h3 -> canon h4 ->
+  view_rejects (hinted (std_ops_of "u64::mod") [h1; h2; h3; h4]) 4 g4 (fun xs => B64 xs = 0).
+Proof. exact u64_mod_zero. Qed.
+Print Assumptions c16_mod_zero.
+Theorem c16_divmod_zero : forall h1 h2 h3 h4, canon h1 -> canon h2 -> canon h3 -> canon h4 ->
+  view_rejects (hinted (std_ops_of "u64::divmod") [h1; h2; h3; h4]) 4 g4 (fun xs => B64 xs = 0).
+Proof. exact u64_divmod_zero. Qed.
+Print Assumptions c16_divmod_zero.
